@@ -118,6 +118,10 @@ def run(ctx):
         'or an overlap (negative): its filter is evaluated on the sign '
         'representatives -1, 0, +1 and must select exactly the non-zero ones; '
         'the caller turns a failed predicate into an error']
+    ctx.decided += [
+        'R6 (= C05.R1) a step request the reader accepts cannot hang the '
+        'set-up: a terminating guard rejects a non-positive step after the '
+        'last store of req_dz on every path']
     ctx.not_decided += [
         'that each numeric guard rejects every member of its class',
         'that all accepted inputs sweep without exception']
@@ -127,6 +131,11 @@ def run(ctx):
     r4(ctx)
     r5(ctx)
     ctx.min_instances('C18.R5', 3)
+    # an accepted input must not hang the mesh construction: termination
+    # rules of the mesh builder (shared with C05.R1)
+    from . import c05
+    c05.r1(ctx.alias({'C05.R1': 'C18.R6'}))
+    ctx.min_instances('C18.R6', 6)
     ctx.min_instances('C18.R1', 230)
     ctx.min_instances('C18.R2', 40)
     ctx.min_instances('C18.R3', 400)
